@@ -1527,7 +1527,7 @@ class C10(Property):
     def feat_cases(self, rng: random.Random, deep: bool) -> Iterator[Dict[str, Any]]:
         pool = [["note", ["motif found by another tool"]], ["locus_tag", ["extmotif1"]], ["protein_start", ["5"]], ["protein_end", ["9"]],
                 ["custom_key", ["x", "y"]], ["label", ["their_label"]], ["database", ["their db"]], ["translation", ["MAG"]],
-                ["zz_last", ["1"]], ["aSDomain", ["their name"]]]
+                ["zz_last", ["1"]], ["aSDomain", ["their name"]], ["domain_id", ["their id"]], ["evalue", ["1e-5"]]]
         for _ in range(600 if deep else 100):
             lo = rng.randrange(0, 200)
             yield {"f": "feat", "kind": "extmotif", "loc": simple(lo, lo + 9, rng.choice([1, -1])),
